@@ -130,7 +130,7 @@ impl Tape {
         let value = self.run_index % bound;
         self.draws[0] += 1;
         self.subs[0].pos += 1;
-        self.subs[0].rec.push(Rec { label, bound, value });
+        crate::alloc::exempt(|| self.subs[0].rec.push(Rec { label, bound, value }));
         trace(0, label, bound, value);
         value
     }
@@ -165,7 +165,7 @@ impl Tape {
             },
         };
         sub.pos += 1;
-        sub.rec.push(Rec { label, bound, value });
+        crate::alloc::exempt(|| sub.rec.push(Rec { label, bound, value }));
         trace(idx, label, bound, value);
         value
     }
